@@ -8,6 +8,26 @@
 # rule: how cases are generated and what makes one non-trivial / distinct (copied into evidence)
 
 PROPS = {
+    "C14": {
+        "level": "exploration",
+        "rule": "TestC14Remove: rapid generates a go-git repository with 0..3 configured bare remotes, any subset of which received "
+                "the victim by push (remote-tracking refs), remotes that know other entities only, 0..6 other bugs of which 0..2 share "
+                "a ground 2-character id prefix with the victim, 0..3 commits on the victim, unrelated branches/tags/remote branches; "
+                "the victim is a bug or an unreferenced identity, removed through the entity API, the cache API (shortest unique "
+                "prefix) or the CLI (git-bug bug rm). Oracle: ref snapshot diff = exactly the local ref and the remote-tracking ref of "
+                "every configured remote that had one; every other ref and every other bug's operation list unchanged; afterwards not "
+                "resolvable by id / any prefix / query / planted search token, still so after MergeAll without a fetch, after a cache "
+                "rebuild, and after repeating the removal; the other bugs stay listed and searchable. TestC14Wipe: the real CLI on "
+                "host repositories with/without identity, 0..4 bugs, bridge configuration, a remote, a remote-only bug, foreign "
+                "configuration: exit 0, no ref under the four git-bug namespaces, no git-bug.* key, nothing under .git/git-bug, "
+                "foreign refs and configuration intact. Non-trivial: >=1 remote holds the entity and >=1 other entity exists (remove); "
+                "identity or bridge configured (wipe). Distinct: entity x mode x remotes/holders x others x shared prefixes x edits.",
+        "assumptions": ["identities referenced by bugs are never removed (documented caller responsibility)",
+                        "a repeated removal may return an error as long as nothing changes"],
+        "needs_cli": True,
+        "tests": [{"name": "TestC14Remove", "quick": 60, "shards_quick": 2, "thorough": 300, "shards": 12},
+                  {"name": "TestC14Wipe", "quick": 16, "shards_quick": 3, "thorough": 80, "shards": 8}],
+    },
     "C13": {
         "level": "exploration",
         "rule": "TestC13Interleave: rapid pairs of ids (unrelated, or sharing a prefix of any length), and for each EVERY prefix "
@@ -246,6 +266,13 @@ PROPS = {
 
 # Text for MANIFEST.json, per claimed property.
 MANIFEST_TEXT = {
+    "C14": {
+        "technique": "property-based testing (rapid) over repository configurations with a frame-condition oracle on the ref snapshot; real CLI for rm and wipe",
+        "level_text": "Generated configurations (remotes, holders, other entities with engineered shared prefixes, removal path) are checked "
+                      "against an exact frame condition on refs, entities, cache and index, including repeatability and non-resurrection.",
+        "design_ref": "DESIGN.md §4 C14",
+        "level_note": "Trusted: stock git for-each-ref / config for the wipe post-conditions.",
+    },
     "C13": {
         "technique": "property-based testing (rapid) with nonce-ground id populations; exhaustive enumeration of prefix lengths vs a plain string-prefix reference",
         "level_text": "Every prefix length of every id of generated populations with engineered shared prefixes is resolved and compared with "
